@@ -24,6 +24,9 @@ CONSTANTS Pairs,       \* source-frequency pairs, e.g. {1, 2}
                        \*    the file_dir of its original (as the code does)
                        \* "JtvecLeavesState": jtvec leaves Jt w in the gradient
                        \*    cache and the vector in data.residual
+                       \* "ObservedKeepsCaches": compute(observed=True)
+                       \*    replaces the observed data but keeps the cached
+                       \*    misfit, gradient, residual and weights
                        \* (the shared file_dir of copies is modelled as is)
 
 Objs == 1..NObj
@@ -46,21 +49,27 @@ Mixed == -3     \* parts computed for different models
 File == -4      \* the dict entry is a file name
 Gone == -5      \* the file the entry points to does not exist
 NoGrad == <<-1, -1>>
+(* observed data: 0 = the data the survey came with, m + 1 = the synthetic   *)
+(* data of model m (compute(observed=True)).  Quantities that compare        *)
+(* synthetic with observed data carry both: DP(m, ob)                        *)
+DP(m, ob) == IF m < 0 THEN m ELSE m + 10 * ob
 Blank(m) ==
-  [ex |-> TRUE, mv |-> m, dir |-> 1,
+  [ex |-> TRUE, mv |-> m, dir |-> 1, ob |-> 0,
    ef |-> [p \in Pairs |-> None],   \* efield: model id | File | none
    syn |-> [p \in Pairs |-> None],  \* data.synthetic: model id | none (NaN)
    comp |-> FALSE,                  \* _computed
    mis |-> None,                    \* _misfit: model id
-   w |-> FALSE,                     \* 'weights' in data
-   res |-> None,                    \* data.residual: model id | Vec | none
-   grad |-> NoGrad,                 \* _gradient: <<efield id, driver>> | none
+   w |-> None,                      \* data['weights']: observed data they
+                                    \* were computed from | none
+   res |-> None,                    \* data.residual: DP | Vec | none
+   grad |-> NoGrad,                 \* _gradient: <<efield id, driver DP>> | none
    bf |-> None,                     \* _dict_bfield exists: driver | none
    tol |-> "fwd",                   \* solver_opts['tol']
    jv |-> FALSE]                    \* 'jvec' in data
-Absent == [ex |-> FALSE, mv |-> 0, dir |-> 1, ef |-> [p \in Pairs |-> None],
+Absent == [ex |-> FALSE, mv |-> 0, dir |-> 1, ob |-> 0,
+           ef |-> [p \in Pairs |-> None],
            syn |-> [p \in Pairs |-> None], comp |-> FALSE, mis |-> None,
-           w |-> FALSE, res |-> None, grad |-> NoGrad, bf |-> None,
+           w |-> None, res |-> None, grad |-> NoGrad, bf |-> None,
            tol |-> "fwd", jv |-> FALSE]
 
 NoDir == [k \in {"e", "b"} |-> [p \in Pairs |-> Gone]]
@@ -110,7 +119,11 @@ MisfitF(r, f) ==
   IF r.mis # None \/ ~MisfitOK(r, f) THEN <<r, f>>
   ELSE LET c == IF r.comp THEN <<r, f>> ELSE ComputeAllF(r, f)
            r1 == c[1]
-       IN <<[r1 EXCEPT !.w = TRUE, !.res = SynProv(r1), !.mis = SynProv(r1)],
+           \* weights are computed only if none are stored
+           wn == IF r1.w = None THEN r1.ob ELSE r1.w
+           rp == DP(SynProv(r1), r1.ob)
+       IN <<[r1 EXCEPT !.w = wn, !.res = rp,
+                       !.mis = IF wn = r1.ob THEN rp ELSE Mixed],
             c[2]>>
 
 (* the efields the gradient / jvec need are there *)
@@ -130,7 +143,10 @@ GradientF(r, f) ==
                <<[r1 EXCEPT !.bf = r1.res, !.tol = "grad"],
                  IF FileMode THEN [f1 EXCEPT ![r1.dir]["b"] = [p \in Pairs |-> r1.res]]
                  ELSE f1, "error", None>>
-          ELSE LET g == <<EProv(r1, f1), r1.res>>
+          ELSE LET \* the back-propagated source is residual * weight (for
+                   \* jtvec the weight cancels)
+                   drv == IF r1.res = Vec \/ r1.w = r1.ob THEN r1.res ELSE Mixed
+                   g == <<EProv(r1, f1), drv>>
                IN <<[r1 EXCEPT !.bf = r1.res, !.tol = "grad", !.grad = g],
                     IF FileMode
                     THEN [f1 EXCEPT ![r1.dir]["b"] = [p \in Pairs |-> r1.res]]
@@ -150,7 +166,7 @@ JvecF(r, f) ==
             EProv(r1, c[2])>>
 
 JtvecF(r, f) ==
-  IF ~r.w \/ r.res = None THEN <<r, f, "error", NoGrad>>   \* no weights/residual
+  IF r.w = None \/ r.res = None THEN <<r, f, "error", NoGrad>>   \* no weights/residual
   ELSE LET r0 == [r EXCEPT !.res = Vec, !.grad = NoGrad, !.bf = None]
            g == GradientF(r0, f)
        IN IF "JtvecLeavesState" \in Deviations THEN g
@@ -164,7 +180,7 @@ CleanF(r, f, what) ==
       f1 == IF FileMode THEN [f EXCEPT ![r.dir] = NoDir]   \* unlink *field_*.h5
             ELSE f
       r2 == IF what \in {"computed", "all"}
-            THEN [r1 EXCEPT !.comp = FALSE, !.res = None, !.w = FALSE,
+            THEN [r1 EXCEPT !.comp = FALSE, !.res = None, !.w = None,
                             !.syn = [p \in Pairs |-> None], !.grad = NoGrad,
                             !.mis = None]
             ELSE r1
@@ -172,7 +188,7 @@ CleanF(r, f, what) ==
 
 (* to_dict(what) -> from_dict: which parts survive (deep copy or file) *)
 CopyF(r, what, d) ==
-  LET base == [Blank(r.mv) EXCEPT !.tol = "fwd", !.dir = d]
+  LET base == [Blank(r.mv) EXCEPT !.tol = "fwd", !.dir = d, !.ob = r.ob]
       data == IF what = "plain" THEN [base EXCEPT !.jv = r.jv]
               ELSE [base EXCEPT !.syn = r.syn, !.res = r.res, !.w = r.w,
                                 !.jv = r.jv]
@@ -196,6 +212,25 @@ Compute(o) ==
           /\ Ret("compute", o, "-", "none", None)
      ELSE /\ UNCHANGED <<S, files>>
           /\ Ret("compute", o, "-", "error", None)
+  /\ UNCHANGED nextModel
+
+(* compute(observed=True, add_noise=False): all pairs; the synthetic data   *)
+(* become the observed data; _computed is left as it is; whatever was      *)
+(* derived from the old observed data is dropped                           *)
+ComputeObsF(r, f) ==
+  LET c == ComputeF(r, f, Pairs)
+      r1 == [c[1] EXCEPT !.ob = r.mv + 1]
+  IN <<IF "ObservedKeepsCaches" \in Deviations THEN r1
+       ELSE [r1 EXCEPT !.mis = None, !.grad = NoGrad, !.res = None, !.w = None],
+       c[2]>>
+ComputeObs(o) ==
+  /\ Step /\ S[o].ex
+  /\ IF ComputeOK(S[o], files, Pairs)
+     THEN /\ LET c == ComputeObsF(S[o], files)
+             IN S' = [S EXCEPT ![o] = c[1]] /\ files' = c[2]
+          /\ Ret("compute_obs", o, "-", "none", None)
+     ELSE /\ UNCHANGED <<S, files>>
+          /\ Ret("compute_obs", o, "-", "error", None)
   /\ UNCHANGED nextModel
 
 Misfit(o) ==
@@ -286,7 +321,7 @@ Fork(o) == o = 1 /\ \E w \in Whats : Copy(w, "copy") \/ Copy(w, "file")
 
 Next ==
   \E o \in Objs :
-     \/ Compute(o) \/ Misfit(o) \/ Gradient(o) \/ Jvec(o) \/ Jtvec(o)
+     \/ Compute(o) \/ ComputeObs(o) \/ Misfit(o) \/ Gradient(o) \/ Jvec(o) \/ Jtvec(o)
      \/ \E p \in Pairs : GetField(o, p, "efield") \/ GetField(o, p, "hfield")
      \/ \E w \in CleanWhats : Clean(o, w)
      \/ ModelUpdate(o)
@@ -298,8 +333,8 @@ Spec == Init /\ [][Next]_vars
 (* ============================ properties (C12) =========================== *)
 (* what a freshly created simulation with the same model would report *)
 Fresh(o, op) ==
-  CASE op = "misfit" -> S[o].mv
-    [] op = "gradient" -> <<S[o].mv, S[o].mv>>
+  CASE op = "misfit" -> DP(S[o].mv, S[o].ob)
+    [] op = "gradient" -> <<S[o].mv, DP(S[o].mv, S[o].ob)>>
     [] op = "jvec" -> S[o].mv
     [] op = "jtvec" -> <<S[o].mv, Vec>>
     [] op \in {"efield", "hfield"} -> S[o].mv
@@ -313,9 +348,10 @@ FreshResults ==
 CachesCoherent ==
   \A o \in Objs : S[o].ex =>
      /\ \A p \in Pairs : S[o].syn[p] \in {None, S[o].mv}
-     /\ S[o].mis \in {None, S[o].mv}
-     /\ S[o].grad \in {NoGrad, <<S[o].mv, S[o].mv>>}
-     /\ S[o].res \in {None, S[o].mv}
+     /\ S[o].mis \in {None, DP(S[o].mv, S[o].ob)}
+     /\ S[o].grad \in {NoGrad, <<S[o].mv, DP(S[o].mv, S[o].ob)>>}
+     /\ S[o].res \in {None, DP(S[o].mv, S[o].ob)}
+     /\ S[o].w \in {None, S[o].ob}
      /\ \A p \in Pairs : EContent(S[o], files, p) \in {None, S[o].mv}
 
 (* operations on one object leave the other one's reportable state alone    *)
